@@ -5,5 +5,6 @@ CONSTANTS
   MaxDepth = 2
   Ordered = TRUE
   Exits = TRUE
+  Hard = FALSE
 INVARIANTS TypeOK RecNested Bounded PrecOK SaveExpAgrees AcceptLaw RejectLaw NestLaw EquivLaw AltLaw EmptyLaw
 CHECK_DEADLOCK FALSE
